@@ -111,9 +111,14 @@ pub fn case_writer(ctx: &mut Ctx, max_write: &str, max_keep: &str, keep_age: &st
             std::fs::File::options().write(true).open(&p).unwrap().set_modified(now - Duration::from_secs(age.parse().unwrap())).unwrap();
         }
         std::fs::write(dir.join("unrelated.txt"), b"keep").unwrap();
+        // entries that carry the prefix and are not regular files (an operator's archive directory, a convenience symlink):
+        // they are not log files: never counted, never deleted
+        std::fs::create_dir(dir.join("srv.log.archive")).unwrap();
+        std::fs::write(dir.join("srv.log.archive").join("2020.gz"), vec![b'z'; 5000]).unwrap();
+        let _ = std::os::unix::fs::symlink("unrelated.txt", dir.join("srv.log.current"));
         let start_len = line_len(&LogEvent::new(Level::Info, tag("msg", "Starting log writer")));
         let total = |dir: &PathBuf| -> u64 {
-            std::fs::read_dir(dir).unwrap().filter_map(|e| e.ok()).filter(|e| e.file_name().to_string_lossy().starts_with("srv.log")).filter_map(|e| e.metadata().ok()).map(|m| m.len()).sum()
+            std::fs::read_dir(dir).unwrap().filter_map(|e| e.ok()).filter(|e| e.file_name().to_string_lossy().starts_with("srv.log")).filter_map(|e| e.metadata().ok()).filter(|m| m.is_file()).map(|m| m.len()).sum()
         };
         // (first line id, description, len, path) of the writer's files; old files as (age order)
         let scan = |dir: &PathBuf| -> (Vec<(SystemTime, String, u64)>, Vec<(u64, String, u64, PathBuf)>) {
@@ -123,6 +128,7 @@ pub fn case_writer(ctx: &mut Ctx, max_write: &str, max_keep: &str, keep_age: &st
                 let name = e.file_name().to_string_lossy().to_string();
                 if !name.starts_with("srv.log") { continue; }
                 let Ok(md) = e.metadata() else { continue };
+                if !md.is_file() { continue; }
                 if name.contains(".old-") {
                     old.push((md.modified().unwrap(), format!("X{}", name.rsplit('-').next().unwrap()), md.len()));
                 } else {
@@ -189,7 +195,9 @@ pub fn case_writer(ctx: &mut Ctx, max_write: &str, max_keep: &str, keep_age: &st
             }
         }
         let (old, new) = scan(&dir);
-        let unrelated = std::fs::read(dir.join("unrelated.txt")).map(|b| b == b"keep").unwrap_or(false);
+        let unrelated = std::fs::read(dir.join("unrelated.txt")).map(|b| b == b"keep").unwrap_or(false)
+            && std::fs::metadata(dir.join("srv.log.archive").join("2020.gz")).map(|m| m.len() == 5000).unwrap_or(false)
+            && std::fs::symlink_metadata(dir.join("srv.log.current")).is_ok();
         let _ = std::fs::remove_dir_all(&dir);
         let mut files: Vec<String> = old.iter().map(|f| format!("{}:{}", f.1, f.2)).collect();
         files.extend(new.iter().map(|f| format!("{}:{}", f.1, f.2)));
